@@ -211,6 +211,21 @@ def dirty_histories(chk, mpmath, rng, nhist):
                 P = rng.choice([20, 40, 53, 64, 100, 150, 250, 400])
                 sw.run_block("mp", name, stmts[:8], P, inject=rng.choice([0, 1]))
                 descr.append([name, P])
+            # an aborted computation of a memoised constant at high precision (exception at the start of its
+            # fixed-point routine), as C33 quantifies over computations aborted at any point
+            from . import c17
+            for cname in rng.sample(["pi", "ln2", "ln10", "e", "euler", "catalan"], 3):
+                cell = c17.memo_cell(mpmath.libmp, cname)
+                sw.inj.add_code("fixed:" + cname, cell.__code__)
+                sw.inj.begin(("fixed:" + cname, 1))
+                try:
+                    getattr(mpmath.libmp, "mpf_" + cname)(max(cell.memo_prec, 50) + rng.randint(100, 2000), "n")
+                except precrec.Injected:
+                    pass
+                except Exception:
+                    pass
+                sw.inj.arm = None
+                descr.append(["abort-constant", cname])
             sw.traces = []
             results.append((descr, probe_values(mpmath)))
     finally:
